@@ -8,9 +8,9 @@ replay = _tomoreplay.replay
 
 
 def _job(job):
-    n, conn = job
+    n, conn, perm = job
     pr = _tomoprop.Prover()
-    problems, st = _tomoprop.full_tomography(n, conn, None, pr, with_density=(n <= 4))
+    problems, st = _tomoprop.full_tomography(n, conn, perm, pr, with_density=(n <= 4))
     return dict(problems=problems, st=st, q=dict(n=pr.n, t=pr.t, verdicts=pr.verdicts))
 
 
@@ -21,22 +21,34 @@ def run(tier, seed):
               "tomography.z_pauli_from_bitstring", "tomography._compute_density_matrix_from_pauli_expectation_values", "mub_circuits.get_mub_circuits")
     nmax = 5 if tier == "quick" else 6
     ck.bounds += ["the state is symbolic: all 4^n Pauli coefficients are free real unknowns (superset of all density matrices); every configuration with n<=%d" % nmax,
+                  "the whole register also given as an explicit qubit list: every order for n<=3, seeded orders for n=4,5 (both modes, both call orders)",
                   "all 4^n reported expectation values and (n<=4) all density-matrix entries are proved equal to the expected linear forms by one LRA validity query per configuration"]
     ck.outside += ["floating-point rounding (statistics and arithmetic are exact rationals in the encoding)", "n=6 in the quick tier"]
     ck.assumptions += ["exact outcome distributions are derived from the returned circuits' gate lists with ztab (validated against qiskit on this run)"]
     ck.validated += ztab.validate_against_qiskit(seed=seed, trials=200)
-    jobs = [(n, c) for (n, c) in ADVERTISED if n <= nmax]
+    import itertools, random
+    rnd = random.Random(seed)
+    jobs = [(n, c, None) for (n, c) in ADVERTISED if n <= nmax]
+    # the whole register given as an explicit qubit list in every order (n<=3) / seeded orders (n=4,5)
+    for (n, c) in ADVERTISED:
+        if n <= 3:
+            jobs += [(n, c, list(p)) for p in itertools.permutations(range(n))]
+        elif n <= 5:
+            for _ in range(3 if tier == "quick" else 12):
+                p = list(range(n))
+                rnd.shuffle(p)
+                jobs.append((n, c, p))
     jobs.sort(key=lambda j: -j[0])
     cands = []
     for job, r in harness.pmap(_job, jobs):
-        ck.count("%d-%s" % job, n_queries=r["q"]["n"], solver_s=r["q"]["t"], obligations=max(1, r["st"].get("pairs", 0)), discharged=max(1, r["st"].get("pairs", 0)) if not r["problems"] else 0,
-                 verdicts=r["q"]["verdicts"], paths=r["st"].get("circuits", 0), sig=["%d-%s:%d" % (job[0], job[1], i) for i in range(r["st"].get("pairs", 0))])
+        ck.count("%d-%s%s" % (job[0], job[1], "" if job[2] is None else " list"), n_queries=r["q"]["n"], solver_s=r["q"]["t"], obligations=max(1, r["st"].get("pairs", 0)), discharged=max(1, r["st"].get("pairs", 0)) if not r["problems"] else 0,
+                 verdicts=r["q"]["verdicts"], paths=r["st"].get("circuits", 0), sig=["%d-%s:%s:%d" % (job[0], job[1], job[2], i) for i in range(r["st"].get("pairs", 0))])
         ck.sample("config", dict(n=job[0], conn=job[1], circuits=r["st"].get("circuits"), obligations=r["st"].get("pairs")))
         for p in r["problems"]:
             if p == "SOLVER-UNKNOWN":
                 ck.harness_error("solver unknown %s" % (job,))
             else:
-                cands.append(("%d-%s" % job, dict(kind="tomo", which="tomography", N=job[0], conn=job[1], mq=None), "%d-%s: %s" % (job[0], job[1], p)))
+                cands.append(("%d-%s %s" % job, dict(kind="tomo", which="tomography", N=job[0], conn=job[1], mq=job[2]), "%d-%s list %s: %s" % (job[0], job[1], job[2], p)))
     seen = set()
     ck.candidates([c for c in cands if not (c[0] in seen or seen.add(c[0]))][:20])
     # vacuity: a wrong expectation must be refuted by the prover
